@@ -3,6 +3,7 @@ package main
 import (
 	"fmt"
 	"go/token"
+	"go/types"
 	"regexp"
 	"strings"
 
@@ -305,7 +306,89 @@ func runC13Extra(c *Ctx) {
 // successful VerifyTx of that very transaction; (2) serialising a signature
 // never writes into the signature's own bytes; (3) the binary form of a
 // signature is parsed whole (no truncation of an over-long field).
+// runC13Third: address derivation takes the tail of the key digest; a locally built transaction is
+// signed after its last content field was set.
+func runC13Third(c *Ctx) {
+	if f := c.mustFn("common", "", "NewAccountAddressFromPublicKey"); f != nil {
+		idLen, okL := c.constVal("common", "AddressIDBytes")
+		n := 0
+		for _, cs := range c.calls(f, func(cc *ssa.CallCommon) bool {
+			cal := cc.StaticCallee()
+			return cal != nil && cal.Name() == "NewAccountAddress"
+		}) {
+			n++
+			_, a := callArgs(cs.Common())
+			sl, isSl := unwrap(a[0]).(*ssa.Slice)
+			okT := false
+			if isSl && okL && sl.Low != nil && sl.High == nil {
+				if k, isK := constInt(sl.Low); isK {
+					if pt, isP := sl.X.Type().Underlying().(*types.Pointer); isP {
+						if at, isA := pt.Elem().Underlying().(*types.Array); isA {
+							okT = at.Len()-k == idLen
+						}
+					}
+				} else {
+					okT = render(sl.Low) == fmt.Sprintf("(len(%s) - %d)", render(sl.X), idLen)
+				}
+			}
+			c.check(okT, "C13.address-of-key", "an account address is the last AddressIDBytes bytes of the key digest", cs.Pos(), "digest[len(digest)-AddressIDBytes:]", "the address is built from "+render(a[0])+": the signer recovered from a signature maps to another address than the one every ICON wallet derives, so correctly signed transactions are rejected")
+		}
+		if n == 0 {
+			c.undecided("C13.address-of-key", "NewAccountAddressFromPublicKey", f.Pos(), "no NewAccountAddress call")
+		}
+	}
+	if f := c.mustFn("service/transaction", "", "NewPatchTransaction"); f != nil {
+		hs := c.calls(f, byMethod("TxHash"))
+		if len(hs) != 1 {
+			c.undecided("C13.sign-last", "NewPatchTransaction", f.Pos(), fmt.Sprintf("%d TxHash calls", len(hs)))
+		} else {
+			rootPath := func(v ssa.Value) (ssa.Value, string) {
+				path := ""
+				for {
+					fa, ok := v.(*ssa.FieldAddr)
+					if !ok {
+						return v, path
+					}
+					path = faName(fa) + "." + path
+					v = fa.X
+				}
+			}
+			var txRoot ssa.Value
+			if r, _ := callArgs(hs[0].Common()); r != nil {
+				txRoot, _ = rootPath(r)
+			}
+			bad := ""
+			var badPos token.Pos
+			for _, b := range f.Blocks {
+				for _, in := range b.Instrs {
+					var target ssa.Value
+					switch x := in.(type) {
+					case *ssa.Store:
+						target = x.Addr
+					case *ssa.Call:
+						if r, _ := callArgs(x.Common()); r != nil && x != hs[0].Instr {
+							target = r
+						}
+					}
+					if target == nil {
+						continue
+					}
+					root, path := rootPath(target)
+					if root != txRoot || txRoot == nil || path == "" || strings.Contains(path, "Signature") {
+						continue
+					}
+					if _, after := pathAvoiding(f, hs[0].Instr, func(i ssa.Instruction) bool { return i == in }, func(ssa.Instruction) bool { return false }); after && !dominatesInstr(in, hs[0].Instr) {
+						bad, badPos = strings.TrimSuffix(path, "."), in.Pos()
+					}
+				}
+			}
+			c.check(bad == "", "C13.sign-last", "NewPatchTransaction signs the id of the finished transaction", hs[0].Pos(), "no content field is written after TxHash()", "field "+bad+" is written after TxHash() was computed (and cached): the signature covers another id than the one every receiver recomputes from the bytes ("+c.pos(badPos)+")")
+		}
+	}
+}
+
 func runC13Second(c *Ctx) {
+	runC13Third(c)
 	nAdd := 0
 	for _, f := range c.pkgFuncs("service") {
 		if strings.HasSuffix(c.file(f.Pos()), "_test.go") {
